@@ -88,6 +88,23 @@ class _FakeTimeModule:
     def sleep(self, dt):
         self._clock.sleep(dt)
 
+    # the other clocks, consistent with time(): same rate, own origin (host booted 7 s before the first question)
+    def monotonic(self):
+        t = self._clock.time()
+        if not hasattr(self, "_boot"):
+            self._boot = t - 7
+        return t - self._boot
+
+    perf_counter = monotonic
+
+    def time_ns(self):
+        return int(self._clock.time() * 10 ** 9)
+
+    def monotonic_ns(self):
+        return int(self.monotonic() * 10 ** 9)
+
+    perf_counter_ns = monotonic_ns
+
     def __getattr__(self, name):          # anything else: the real module
         return getattr(_real_time, name)
 
